@@ -331,9 +331,34 @@ def directed_config(rng, required, max_steps, goal_at_once=False, defender=False
 def directed(rng, k):
     """Run the k-th directed scenario; returns (Session, cfg, draw)."""
     kinds = ["eof", "readerr", "quit", "undecodable"]
-    variant = (k // 17) % 2
-    k = k % 17
-    if k == 16:
+    variant = (k // 18) % 2
+    k = k % 18
+    if k == 17:
+        # an attacker succeeds in one episode and fails in the next (and the other way round): the defender's reason and bonus
+        # are decided by THIS episode's attackers only - nothing of an earlier episode counts
+        cfg, draw = directed_config(rng, 2, 2)
+        A = cfg["coordinator"]["agents"]["Attacker"]
+        g0 = copy.deepcopy(nsgenv.EMPTY_PART)
+        g0["known_hosts"] = ["192.168.1.2"]                              # reached by scanning 192.168.1.0/24, not by 192.168.2.0/24
+        A["goal"] = dict(g0, description="goal", is_any_part_of_goal_random=False)
+        cfg["coordinator"]["agents"]["Defender"].pop("max_steps", None)
+        S = CR.Session(cfg, draw=draw)
+        a, dd = ("10.2.17.1", 1), ("10.2.17.2", 2)
+        S.connect(a); S.connect(dd); S.settle()
+        _join(S, a, "att", "Attacker"); _join(S, dd, "def", "Defender"); S.settle()
+        win, dt = game_msg("ScanNetwork", source_host=ip("192.168.2.2"), target_network={"ip": "192.168.1.0", "mask": 24})
+        lose, dl = game_msg("ScanNetwork", source_host=ip("192.168.2.2"), target_network={"ip": "192.168.2.0", "mask": 24})
+        fd, dfd = game_msg("FindData", source_host=ip("192.168.2.2"), target_host=ip("192.168.2.2"))
+        plan = [True, False, False, True] if variant == 0 else [False, True, False]
+        for wins in plan:
+            if wins:
+                S.send(a, win, dt); S.settle()
+            else:
+                S.send(a, lose, dl); S.settle(); S.send(a, lose, dl); S.settle()      # runs out of steps
+            S.send(dd, fd, dfd); S.settle()                                          # no attacker playing any more: the defender ends
+            S.send(dd, fd, dfd); S.settle()                                          # refused: repeats reason and reward
+            _reset(S, a, False); _reset(S, dd, True); S.settle()
+    elif k == 16:
         # episodes without a single action, with an initial view that changes from episode to episode (a random start host in
         # a scenario with several start hosts): every handed-out trajectory starts with the initial view of ITS episode
         cfg, draw = directed_config(rng, 1, 4)
